@@ -67,6 +67,13 @@ func pemCase(c *core.Ctx, r *core.Rand, i int) {
 		}
 	}
 	formats := []fmtSpec{{"default", 0}, {"Transparent", kmipclient.Transparent}, {"X509", kmipclient.X509}, {"PKCS8", kmipclient.PKCS8}, {"PKCS1", kmipclient.PKCS1}, {"SEC1", kmipclient.SEC1}}
+	if r.P(1, 2) {
+		// several flags at once ("whatever the server prefers among these"): each kind of key picks the first that applies
+		m := kmipclient.KeyFormat(1 + r.Intn(63))
+		formats = []fmtSpec{{fmt.Sprintf("flags %#x", uint8(m)), m}, {"PKCS1|PKCS8", kmipclient.PKCS1 | kmipclient.PKCS8}, {"Transparent|X509", kmipclient.Transparent | kmipclient.X509},
+			{"SEC1|PKCS8|Transparent", kmipclient.SEC1 | kmipclient.PKCS8 | kmipclient.Transparent}, {"RAW|Transparent", kmipclient.RAW | kmipclient.Transparent}}
+		c.Count("pem_multi_flag_formats", 1)
+	}
 	f := formats[r.Intn(len(formats))]
 	for _, fl := range flavours {
 		text := pem.EncodeToMemory(&pem.Block{Type: fl.name, Bytes: fl.der})
